@@ -31,6 +31,7 @@ const (
 	rtImport    = modPath + "/verifrt"
 	syncImport  = modPath + "/verifrt/vsync"
 	dlockImport = modPath + "/verifrt/vdeadlock"
+	atomicImport = modPath + "/verifrt/vatomic"
 )
 
 type multi []string
@@ -546,6 +547,10 @@ func main() {
 		if in(swapFiles, rel) {
 			a := swapImport(f, "sync", syncImport, "sync")
 			b := swapImport(f, "github.com/sasha-s/go-deadlock", dlockImport, "deadlock")
+			// lock-free code: the standard library's atomics become scheduling points too (go.uber.org/atomic is left alone)
+			if swapImport(f, "sync/atomic", atomicImport, "atomic") {
+				a = true
+			}
 			if !a && !b {
 				// nothing to expose to the explorer in this file (any longer): not an error, the check's oracles decide
 				fmt.Fprintf(os.Stderr, "[instr] note: %s imports neither sync nor go-deadlock; left as it is\n", rel)
@@ -599,6 +604,7 @@ func main() {
 	replace[filepath.Join(repoUtils, "verifrt", "builder.go")] = filepath.Join(verifRoot, "engine/verifrt/builder.go.src")
 	replace[filepath.Join(repoUtils, "verifrt", "vsync", "vsync.go")] = filepath.Join(verifRoot, "engine/verifrt/vsync.go.src")
 	replace[filepath.Join(repoUtils, "verifrt", "vdeadlock", "vdeadlock.go")] = filepath.Join(verifRoot, "engine/verifrt/vdeadlock.go.src")
+	replace[filepath.Join(repoUtils, "verifrt", "vatomic", "vatomic.go")] = filepath.Join(verifRoot, "engine/verifrt/vatomic.go.src")
 	b, _ := json.MarshalIndent(map[string]any{"Replace": replace}, "", " ")
 	ov := filepath.Join(verifRoot, ".build", "overlay-"+*id+".json")
 	if err := os.WriteFile(ov, b, 0o644); err != nil {
